@@ -46,7 +46,13 @@ def run_nts(ctx):
     rng = random.Random(ctx.seed)
     if q:
         rest = rng.sample(rest, min(len(rest), 200))
-    cases = ntsdev + rest
+    # two crafted datagrams before the genuine one (the second meets a client whose retry is used
+    # up): spec/mc/NtpAcceptNtsGen.tla, breadth-first over skip-class first x NTS-deviating second
+    g2 = ctx.tlc("NtpAcceptNtsGen", "NtpAccept_nts_gen2.cfg", workers=1, timeout=300, tag="ntsgen2")
+    two = [c for c in ctx.emitted(g2["out"]) if len(_queue(c)) >= 2]
+    if q:
+        two = rng.sample(two, min(len(two), 200))
+    cases = ntsdev + rest + two
     rng.shuffle(cases)
     kinds = {_queue(c)[0]["nts"] for c in cases}
     if not {"ok", "absent", "wrongUid", "badTag", "wrongKey", "truncated"} <= kinds or len(cases) < 300:
@@ -62,11 +68,6 @@ def run_nts(ctx):
         per_kind[x["d"]["nts"]][x["got"]] += 1
     ctx.log("NTS driver: %d cases, %d datagrams judged (%d to interleaved requests), reactions %s; per nts kind %s" %
             (len(cases), len(recs), sum(1 for x in recs if x["il"]), reactions, per_kind))
-    # vacuity: every kind was delivered, genuine responses were accepted in both modes
-    acc = [x for x in recs if x["got"] == "ok" and x["d"]["nts"] == "ok"]
-    if len(recs) < len(cases) or not acc or not any(x["il"] for x in acc) or not any(not x["il"] for x in acc) or \
-            set(per_kind) != {"ok", "absent", "wrongUid", "badTag", "wrongKey", "truncated"}:
-        raise vlib.Inconclusive("NTS driver coverage incomplete: %s" % per_kind)
     if reactions["panic"]:
         ctx.notes.append("NTS driver: %d datagrams made the client panic (C08's subject; not judged here)" % reactions["panic"])
 
@@ -91,7 +92,13 @@ def run_nts(ctx):
                       {"record": bad, "case": cases[bad["case"]]})
         left = [x for x in left if not (x["got"] == "ok" and _sig(x) == sig)]
     else:
-        raise vlib.Inconclusive("more than 12 distinct accepted-datagram signatures")
+        ctx.notes.append("NTS driver: more than 12 distinct accepted-datagram signatures; the rest is not listed")
+    # vacuity: every kind was delivered, genuine responses were accepted in both modes
+    acc = [x for x in recs if x["got"] == "ok" and x["d"]["nts"] == "ok"]
+    if nviol == 0 and (len(recs) < len(cases) or not acc or not any(x["il"] for x in acc) or not any(not x["il"] for x in acc) or
+            set(per_kind) != {"ok", "absent", "wrongUid", "badTag", "wrongKey", "truncated"} or
+            not any(x["pos"] == 1 and x["d"]["nts"] != "ok" and x["got"] == "error" for x in recs)):
+        raise vlib.Inconclusive("NTS driver coverage incomplete: %s" % per_kind)
     if nviol == 0:
         ok, l, inv, tout = ctx.validate("NtpAcceptTrace", "NtpAcceptTrace_strict.cfg", tp)
         if not ok:
